@@ -66,12 +66,13 @@ fn gen_line(rng: &mut Rng, upper: bool, depth: &mut u32) -> String {
     match rng.below(24) {
         0..=5 => format!("echo {} {}", q(word(rng)), q(word(rng))),
         6 | 7 => {
-            let name = *rng.pick(&["out", "value", "x1"]);
+            // (names with letters outside ASCII: their upper-case forms are upper case too)
+            let name = *rng.pick(&["out", "value", "x1", "\u{e9}t\u{e9}", "\u{434}\u{43e}\u{43c}"]);
             format!("{} = set {}", up(rng, name), q(word(rng)))
         }
         8 => format!("echo ${{{}}}", rng.pick(&["out", "value", "x1", "undefined"])),
         9 => {
-            let name = *rng.pick(&["start", "mid", "fin"]);
+            let name = *rng.pick(&["start", "mid", "fin", "\u{e9}cho", "\u{3c9}mega"]);
             format!(":{} echo label", up(rng, name))
         }
         10 => format!("{} one two", up(rng, "println")),
